@@ -17,6 +17,7 @@ def run(ctx, rep):
     if ctx.tier == 'thorough':
         crate2 = ctx.mir('codegen-sm')['logos_codegen']
         cg.rule_sites(rep, crate2, want=('C10',))
+    cg.cg_controls(rep, ctx, [('M-C10c', cg.rule_literal_escape)])
     rep.trusted += ['rustc nightly MIR', 'engines/mirfacts', 'regex-syntax: escape(), (?i) semantics, Hir::literal']
     from props import gen
     gen.rules_c10(ctx, rep)
